@@ -30,8 +30,14 @@ def parseDeputies (s : String) : Option (List Deputy) :=
 def parseTxs (s : String) : Option (List Tx) :=
   if s == "-" then some []
   else (s.splitOn ",").mapM (fun p => match p.splitOn ":" with
-    | [e, ok, ids] => match e.toNat?, (ids.splitOn "+").mapM String.toNat? with
-      | some e, some (i :: subs) => some { id := i, exp := e, bodyOk := ok == "1", subs := subs }
+    | [e, ok, ids] =>
+      match e.toNat?, ids.splitOn "+" with
+      | some e, i :: subs =>
+        match i.toNat?, subs.mapM (fun w => match w.splitOn "@" with
+            | [h, x] => do some ((← h.toNat?), (← x.toNat?))
+            | _ => none) with
+        | some i, some ss => some { id := i, exp := e, bodyOk := ok == "1", subs := ss.map (·.1), subExps := ss.map (·.2) }
+        | _, _ => none
       | _, _ => none
     | _ => none)
 
